@@ -3,7 +3,7 @@
 import json, sys
 pid = sys.argv[1]
 p = next(json.loads(l) for l in open('/verif/properties.jsonl') if json.loads(l)['id'] == pid)
-wt = f"/tmp/seed_{pid}"
+wt = f"/tmp/{sys.argv[2] if len(sys.argv) > 2 else 'seed'}_{pid}"
 print(f"""You are given a scratch git worktree of the Python library tekumara/fakesnow (a fake Snowflake connector that rewrites Snowflake SQL via sqlglot into DuckDB SQL) at {wt}. Work ONLY inside {wt} and {wt}_out (create the latter). Do NOT read, list or write anything under /verif or /repo, and do not use the network (there is none). The interpreter is /venv/bin/python; make sure the worktree's code is the one imported by running everything with `cd {wt} && PYTHONPATH={wt} /venv/bin/python ...` (check `fakesnow.__file__`). The existing test-suite is run with `cd {wt} && PYTHONPATH={wt} /venv/bin/python -m pytest -q -p no:cacheprovider tests` and currently gives 196 passed with exactly two known failures (test_get_result_batches, test_get_result_batches_dict).
 
 Here is a behavioural property that this library is supposed to satisfy:
